@@ -126,11 +126,12 @@ def make_cases(rng, tier):
     for name in sorted(CTOR):
         spec = CTOR[name]
         cfgs = configurations(name)
-        if tier == 'quick':
-            cfgs = [cfgs[0]] + rng.sample(cfgs[1:], min(len(cfgs) - 1, 2))
         for kw in cfgs:
             for lay in (['c', 'readonly'] if tier == 'quick' else ['c', 'view', 'fortran', 'readonly']):
-                img = spec.get('image', rng.choice(['uint8', 'float', 'int16', 'float64', 'uint16']))
+                # image dtypes in rotation, so that every class meets every dtype (float64 too: the dtype Compose itself
+                # recommends for values outside [0, 1]) at least once
+                kinds = ['uint8', 'float', 'int16', 'float64', 'uint16']
+                img = spec.get('image', kinds[(len(cases) + (0 if lay == 'c' else 2)) % 5])
                 supports_boxes = name not in ('CoarseDropout', 'GridDropout')
                 supports_kps = name not in ('BBoxSafeRandomCrop', 'RandomSizedBBoxSafeCrop', 'GridDropout')
                 cases.append({'name': name, 'kw': jsonable(kw), 'shape': [12, 10, 8], 'seed': R.pick_seed(rng),
